@@ -82,7 +82,7 @@ TStep == /\ l <= Len(Trace)
                        /\ kukm' = KukOf(e)
                        /\ lastInc' = inc
                        /\ phase' = "built" /\ nreb' = 1 /\ UNCHANGED given
-                       /\ out' = IF LoadRaises(sh, loads', inc) = "no"
+                       /\ out' = IF LoadRaises(sh, loads', inc) = "no" /\ e.raised = "no"
                                  THEN Ev(FExtCode(obj', sh, loads', kukm', inc, {})) ELSE <<>>
                        /\ LET j == JudgeFext(e, obj', sh, loads', kukm', inc, out')
                           IN Verdict(e.id, j[1], j[2])
